@@ -1,12 +1,15 @@
 """C18 — bystander integrity at every interruption point.
 Proof: AdfProps/C18.lean (adfUpdateBitmap's write sequence is root(bmFlag=INVALID), the changed pages in order,
-root(bmFlag=VALID); every write of every program goes through the two write primitives).
+root(bmFlag=VALID), for every state and fault schedule; the write sets of adfRemoveEntry, adfSetEntryAccess and
+adfSetEntryComment on volumes without directory cache).
 Tie: profiles file/names/dirc/extbound with several files open and freed blocks being reused, C vs model, trace-exact
 (so the ORDER and CONTENT HASH of every single block write is compared).
 Oracle on the real code: before every mutating operation the image is decoded independently (block ownership); each block
 write of the operation is classified: root / bitmap / free-on-disk / block of the object operated on / directory or
 cache block / another entry whose ONLY change is its hash-chain link (+checksum).  Anything else — a write into a
-header, extension or data block of another file — is a violation, whatever the final state looks like."""
+header, extension or data block of another file — is a violation, whatever the final state looks like.
+The flag order is observed on the real code as well: the harness tracks the on-disk bitmap-valid flag at every block
+write and reports a bitmap page rewritten while the flag is set (floppies and hardfiles with 3-4 bitmap pages)."""
 import os, re, json, vlib, gen, hist, fsck
 from props import histprop
 PID = "C18"
